@@ -31,6 +31,9 @@ pub enum Op {
     Create { peer: usize, entity: usize },
     CreateNested { peer: usize },
     Update { peer: usize, row: usize },
+    /// update of a row through the row that refers to it, which itself does not change:
+    /// Person{ id pet:{ id name } } or Person{ id parents:[{ id name }] } over an existing reference
+    UpdateThroughParent { peer: usize, row: usize },
     SetPet { peer: usize, row: usize, pet: usize },
     ClearPet { peer: usize, row: usize },
     AddParent { peer: usize, row: usize, parent: usize },
@@ -201,6 +204,37 @@ impl Scenario {
                 p.add("name", name).unwrap();
                 let m = format!("mutate {{ {}{{ id:$id {}:$name }} }}", ent, field);
                 match self.peers[*peer].mutate(&m, Some(p)).await {
+                    Ok(_) => OpOutcome::Accepted,
+                    Err(e) => OpOutcome::Refused(e),
+                }
+            }
+            Op::UpdateThroughParent { peer, row } => {
+                let snap = self.peers[*peer].snapshot().await;
+                let refs: Vec<(Uid, String, Uid)> = snap
+                    .edges
+                    .keys()
+                    .filter(|(src, label, dest)| {
+                        (label == "34" || label == "35")
+                            && snap.nodes.keys().any(|k| &k.0 == src && k.1 == "0")
+                            && snap.nodes.keys().any(|k| &k.0 == dest)
+                    })
+                    .cloned()
+                    .collect();
+                if refs.is_empty() {
+                    return OpOutcome::Refused("no row".into());
+                }
+                let (src, label, dest) = refs[*row % refs.len()].clone();
+                let name = self.next_name();
+                let mut p = Parameters::new();
+                p.add("id", b64(&src)).unwrap();
+                p.add("sub", b64(&dest)).unwrap();
+                p.add("name", name).unwrap();
+                let m = if label == "35" {
+                    "mutate { Person{ id:$id pet:{ id:$sub name:$name } } }"
+                } else {
+                    "mutate { Person{ id:$id parents:[{ id:$sub name:$name }] } }"
+                };
+                match self.peers[*peer].mutate(m, Some(p)).await {
                     Ok(_) => OpOutcome::Accepted,
                     Err(e) => OpOutcome::Refused(e),
                 }
@@ -433,7 +467,8 @@ impl Scenario {
         }
         match k {
             18..=23 => Op::CreateNested { peer },
-            24..=49 => Op::Update { peer, row: r },
+            24..=43 => Op::Update { peer, row: r },
+            44..=49 => Op::UpdateThroughParent { peer, row: r },
             50..=57 => Op::SetPet { peer, row: r, pet: r2 },
             58..=61 => Op::ClearPet { peer, row: r },
             62..=71 => Op::AddParent { peer, row: r, parent: r2 },
